@@ -5,6 +5,8 @@
 package netkit
 
 import (
+	"strings"
+	"crypto/tls"
 	"bytes"
 	"encoding/binary"
 	"errors"
@@ -91,18 +93,32 @@ type RawClient struct {
 	nextID uint32
 }
 
-// Dial connects to unix://path or tcp://host:port.
-func Dial(addr string) (*RawClient, error) {
-	var conn gonet.Conn
-	var err error
+// DialConn opens a plain connection to unix://path, tcp://host:port or
+// tcps://host:port (TLS, any certificate accepted).
+func DialConn(addr string) (gonet.Conn, error) {
 	switch {
-	case len(addr) > 7 && addr[:7] == "unix://":
-		conn, err = gonet.Dial("unix", addr[7:])
-	case len(addr) > 6 && addr[:6] == "tcp://":
-		conn, err = gonet.Dial("tcp", addr[6:])
-	default:
-		return nil, fmt.Errorf("netkit: unsupported address %q", addr)
+	case strings.HasPrefix(addr, "unix://"):
+		return gonet.Dial("unix", addr[7:])
+	case strings.HasPrefix(addr, "tcp://"):
+		return gonet.Dial("tcp", addr[6:])
+	case strings.HasPrefix(addr, "tcps://"):
+		return tls.Dial("tcp", addr[7:], &tls.Config{InsecureSkipVerify: true})
 	}
+	return nil, fmt.Errorf("netkit: unsupported address %q", addr)
+}
+
+// DialBare opens the connection underneath the transport: for tcps:// a TCP
+// connection on which no TLS handshake has taken place.
+func DialBare(addr string) (gonet.Conn, error) {
+	if strings.HasPrefix(addr, "tcps://") {
+		return gonet.Dial("tcp", addr[7:])
+	}
+	return DialConn(addr)
+}
+
+// Dial connects to unix://path, tcp://host:port or tcps://host:port.
+func Dial(addr string) (*RawClient, error) {
+	conn, err := DialConn(addr)
 	if err != nil {
 		return nil, err
 	}
@@ -340,12 +356,26 @@ type Env struct {
 }
 
 // StartServer starts a directory server on a fresh unix socket.
-func StartServer(auth bus.Authenticator) (*Env, error) {
+func StartServer(auth bus.Authenticator) (*Env, error) { return StartServerOn("unix", auth) }
+
+// StartServerOn starts a directory server listening on a transport of the
+// given kind: unix (a socket in a scratch directory), tcp or tcps (a free port
+// of the loopback interface).
+func StartServerOn(transport string, auth bus.Authenticator) (*Env, error) {
 	dir, err := os.MkdirTemp("", "vsrv")
 	if err != nil {
 		return nil, err
 	}
 	addr := "unix://" + filepath.Join(dir, "s")
+	if transport == "tcp" || transport == "tcps" {
+		l, err := gonet.Listen("tcp", "127.0.0.1:0")
+		if err != nil {
+			os.RemoveAll(dir)
+			return nil, err
+		}
+		addr = transport + "://" + l.Addr().String()
+		l.Close()
+	}
 	srv, err := directory.NewServer(addr, auth)
 	if err != nil {
 		os.RemoveAll(dir)
